@@ -104,7 +104,7 @@ def gen(rng: Any, tier: str, i: int) -> Any:
                   "on_cancel": rng.choice(["propagate", "propagate", "swallow", "exc"])} for _ in range(rng.randint(1, 4))]
         if rng.random() < 0.3:
             # one task registers a clean-up task with the service when it is cancelled or fails
-            rng.choice(tasks)["spawn"] = rng.choice([0.5, 0.5, 5.0, 1e6])
+            rng.choice(tasks)["spawn"] = rng.choice([0.4375, 0.4375, 5.0625, 1e6])
         drv = [[0.25, "start"], [rng.choice([0.5, 1.5, 2.5, 50.5]), rng.choice(["stop", "stop", "cancel+wait", "wait"])]]
         if rng.random() < 0.3:
             drv.append([drv[-1][0] + 1.25, "stop"])
@@ -132,7 +132,7 @@ def gen(rng: Any, tier: str, i: int) -> Any:
         if rng.random() < 0.25:
             # the run logic hands a clean-up / follow-up task to its service (self._tasks.add) on its way out: when it
             # is cancelled, or when it fails - i.e. a task is added while a stop() / wait() is already waiting
-            runs[-1]["spawn"] = rng.choice([0.5, 0.5, 5.0, 1e6])
+            runs[-1]["spawn"] = rng.choice([0.4375, 0.4375, 5.0625, 1e6])
     limit = rng.choice([0, 1, 3, None])
     delay = rng.choice([0.0, 2.0, 2.0, 2.125, 0.125])  # incl. delays with a fractional part / below one second
     drv: list[list[Any]] = []
@@ -240,11 +240,24 @@ async def _drive_actor(case: dict[str, Any], log: list[Any]) -> None:
         bg: list[asyncio.Task[Any]] = []
         earlier_lives: set[Any] = set()
 
+        # the harness keeps its own books about the tasks of the service (a check that reads the service's task set
+        # to learn which errors are owed would believe whatever the service has forgotten)
+        tracked: dict[Any, int] = {}
+        collected: dict[Any, float] = {}
+        life = [0]
+
+        def track_extras() -> None:
+            for e in log:
+                if e.get("ev") == "extra" and "task" in e and e["task"] not in tracked:
+                    tracked[e["task"]] = life[0]
+
         async def call(kind: str, t: float) -> None:
             entry = {"ev": "call", "what": kind, "t": t, "running_before": a.is_running,
                      "tasks_before": len(a.tasks)}
             log.append(entry)
             tasks_at_call = set(a.tasks)
+            track_extras()
+            life_at_call, t_call = life[0], loop.time()
             try:
                 if kind == "stop":
                     await a.stop()
@@ -260,6 +273,15 @@ async def _drive_actor(case: dict[str, Any], log: list[Any]) -> None:
                 if isinstance(e, BaseExceptionGroup):
                     entry["group"] = sorted(type(x).__name__ for x in e.exceptions)
             entry["tasks_at_call_all_done"] = all(x.done() for x in tasks_at_call)
+            # errors this call owes its caller: tasks of the current life that have failed by now and whose failure no
+            # call that returned before this one was made has had the chance to report
+            track_extras()
+            owed = [x for x, lf in tracked.items() if lf == life_at_call and x.done() and not x.cancelled()
+                    and x.exception() is not None and collected.get(x, float("inf")) >= t_call]
+            entry["owed_errors"] = sorted(type(x.exception()).__name__ for x in owed)
+            for x in tracked:
+                if x.done():
+                    collected.setdefault(x, loop.time())
             # every task registered with the service before this call returned (also one added while it was waiting)
             registered = set(a.tasks) | {e["task"] for e in log if e.get("ev") == "extra" and "task" in e}
             entry["registered_pending_at_return"] = sorted(
@@ -277,11 +299,17 @@ async def _drive_actor(case: dict[str, Any], log: list[Any]) -> None:
                 await asyncio.sleep(dt)
             if act == "start":
                 log.append({"ev": "call", "what": "start", "t": t, "running_before": a.is_running})
+                was_running, before = a.is_running, set(a.tasks)
                 if not a.is_running:
                     # a new life begins: what the previous life left behind (finished, never collected) is not the
                     # business of a later stop() / wait()
                     earlier_lives.update(x for x in a.tasks if x.done())
+                track_extras()
                 a.start()
+                if not was_running:
+                    life[0] += 1
+                for x in set(a.tasks) - before:
+                    tracked[x] = life[0]
             elif act == "cancel":
                 log.append({"ev": "call", "what": "cancel", "t": t, "running_before": a.is_running})
                 a.cancel()
@@ -460,6 +488,28 @@ def _judge_actor(case: dict[str, Any], log: list[Any], rec: Any) -> None:
                 if sorted(errs) != sorted(got):
                     rec.violation("stop-does-not-surface-exactly-the-task-errors",
                                   {**w0, "call": c, "task_errors": errs, "raised_group": got})
+                else:
+                    # the same, by the harness's own books instead of the service's task set: every failure that no
+                    # earlier call could report is reported by this stop - or by another call that was in flight at the
+                    # same time (a wait() that has already taken the failed task out of the set carries its error)
+                    missing = list(c.get("owed_errors", []))
+                    for x in got:
+                        if x in missing:
+                            missing.remove(x)
+                    others = [x for o in calls if o is not c and o["what"] in ("stop", "wait", "await") and "returned_at" in o
+                              and o["t"] <= c["returned_at"] + 1e-9 and o["returned_at"] >= c["t"] - 1e-9
+                              for x in o.get("group", [])]
+                    missing = [x for x in missing if x not in others]
+                    if missing:
+                        rec.violation("stop-does-not-surface-exactly-the-task-errors",
+                                      {**w0, "call": c, "task_errors_by_the_harness_books": c["owed_errors"], "raised_group": got,
+                                       "reported_by_nobody": missing})
+            elif c.get("owed_errors") and c["raised"] is None and not any(
+                    x in c["owed_errors"] for o in calls if o is not c and o["what"] in ("stop", "wait", "await")
+                    and "returned_at" in o and o["t"] <= c["returned_at"] + 1e-9 and o["returned_at"] >= c["t"] - 1e-9
+                    for x in o.get("group", [])):
+                rec.violation(c["what"] + "-returned-normally-although-a-task-of-the-service-has-failed",
+                              {**w0, "call": c, "task_errors_by_the_harness_books": c["owed_errors"]})
     for e in log:
         if e["ev"] == "extra":
             later_stops = [c for c in calls if c["what"] == "stop" and c["t"] > e["t"] and "returned_at" in c]
